@@ -938,6 +938,9 @@ func (m *engineImpl) crashRestart(role string) string {
 func copyTree(src, dst string) error {
 	return filepath.Walk(src, func(p string, info os.FileInfo, err error) error {
 		if err != nil {
+			if os.IsNotExist(err) {
+				return nil // a temporary file of the (still running) store vanished while we walked
+			}
 			return err
 		}
 		rel, _ := filepath.Rel(src, p)
@@ -947,6 +950,9 @@ func copyTree(src, dst string) error {
 		}
 		b, err := os.ReadFile(p)
 		if err != nil {
+			if os.IsNotExist(err) {
+				return nil
+			}
 			return err
 		}
 		if err := os.WriteFile(target, b, 0o666); err != nil {
